@@ -170,8 +170,9 @@ fn stats_problems(s: &ActorSnapshot, scale: &mut f64) -> Vec<(String, String)> {
 
 const OPS: [&str; 5] = ["find_node", "get_immutable", "get_peers", "get_signed_peers", "put_immutable"];
 
-fn targets(own: Id20) -> [Id20; 3] {
-    [own, krpc::immutable_target(b"c20 value one"), krpc::immutable_target(b"c20 value two")]
+/// Target 3 is the one nobody answers lookups for (its lookups have candidates and no responder).
+fn targets(own: Id20) -> [Id20; 4] {
+    [own, krpc::immutable_target(b"c20 value one"), krpc::immutable_target(b"c20 value two"), krpc::immutable_target(b"c20 unanswered")]
 }
 
 /// Run one history (list of (op, target index)) on a fresh node; check stats after each lookup.
@@ -187,8 +188,13 @@ fn history(h: &[(usize, usize)], out: &mut Partial) {
     net.eps[0].issue_token = false;
     let boots = net.addrs()[..1].to_vec();
     let a = w.add_node(NodeCfg::new([9, 9, 9, 9], 7000).bootstrap(&boots).id(own));
+    let silent_target = ts[3];
     let pump = |w: &mut World, net: &mut EpNet, ev: &Event| {
         if let Event::EndpointRecv { ep, dgram } = ev {
+            // every request about target 3 goes unanswered
+            if krpc::Krpc::parse(&dgram.bytes).and_then(|q| q.query_target()) == Some(silent_target) {
+                return;
+            }
             net.handle(w, *ep, dgram);
         }
     };
@@ -197,7 +203,7 @@ fn history(h: &[(usize, usize)], out: &mut Partial) {
         pump(w, &mut net, ev);
         false
     });
-    let values: [&[u8]; 3] = [b"c20 own", b"c20 value one", b"c20 value two"];
+    let values: [&[u8]; 4] = [b"c20 own", b"c20 value one", b"c20 value two", b"c20 unanswered"];
     let mut scale = 0f64;
     let mut problems: Vec<(String, String)> = stats_problems(&w.snapshot(a), &mut scale);
     for (step, (op, t)) in h.iter().enumerate() {
@@ -242,7 +248,7 @@ fn history(h: &[(usize, usize)], out: &mut Partial) {
     if problems.is_empty() {
         out.add("consistent_histories", 1);
     }
-    let names: Vec<String> = h.iter().map(|(o, t)| format!("{}({})", OPS[*o], ["own", "t1", "t2"][*t])).collect();
+    let names: Vec<String> = h.iter().map(|(o, t)| format!("{}({})", OPS[*o], ["own", "t1", "t2", "unanswered"][*t])).collect();
     let mut seen = std::collections::BTreeSet::new();
     for (k, d) in problems {
         // which op kinds were involved (the finding key), not the exact history
@@ -250,7 +256,7 @@ fn history(h: &[(usize, usize)], out: &mut Partial) {
         kinds.sort();
         kinds.dedup();
         let repeated = h.iter().enumerate().any(|(i, x)| h[..i].contains(x));
-        let key = format!("stats/{k}/{}{}", kinds.join("+"), if repeated { "/repeated-target" } else { "" });
+        let key = format!("stats/{k}/{}{}{}", kinds.join("+"), if repeated { "/repeated-target" } else { "" }, if h.iter().any(|(_, t)| *t == 3) { "/unanswered-lookup" } else { "" });
         if seen.insert(key.clone()) {
             out.violation(key, format!("history {names:?}: {d}"), json!({"part": "c", "history": h.iter().map(|(o, t)| vec![*o, *t]).collect::<Vec<_>>()}));
         }
@@ -433,6 +439,26 @@ fn run(tier: Tier, shard: usize, nshards: usize, _seed: u64) -> Partial {
         }
         let h: Vec<(usize, usize)> = (0..d).map(|i| alphabet[(c / alphabet.len().pow(i as u32)) % alphabet.len()]).collect();
         history(&h, &mut out);
+    }
+    // (c') a lookup nobody answers (candidates, no responder) looked up twice - a retry always
+    // looks up again, the first lookup left no token - with one other step before, between or after
+    for x in &alphabet {
+        for o1 in 0..5usize {
+            for o2 in 0..5usize {
+                for shape in 0..3 {
+                    if !mine() {
+                        continue;
+                    }
+                    let h = match shape {
+                        0 => vec![*x, (o1, 3), (o2, 3)],
+                        1 => vec![(o1, 3), *x, (o2, 3)],
+                        _ => vec![(o1, 3), (o2, 3), *x],
+                    };
+                    out.add("histories_with_an_unanswered_lookup", 1);
+                    history(&h, &mut out);
+                }
+            }
+        }
     }
     out.witness("quiescent snapshots were taken", out.count("quiescent_snapshots") > 0);
     out.witness("consistent histories exist", out.count("consistent_histories") > 0 || shard > 2);
